@@ -392,7 +392,7 @@ pub fn run_kinds(ctx: &Ctx, small: &[(u8, u8)], kinds: &[Kind]) -> Vec<SubReport
     if ctx.tier == vcore::Tier::Thorough {
         subs.push(enumerate_config("exhaustive-medium", kinds, &[(3, 2), (4, 1)], 1_500_000));
     }
-    let n = ctx.tier.pick(6_000, 150_000);
+    let n = ctx.tier.pick(12_000, 400_000);
     let ks: Vec<Kind> = kinds.to_vec();
     let strat = case_strategy().prop_map(move |mut c| {
         if !ks.contains(&c.kind) {
